@@ -398,23 +398,32 @@ class _Stuck(Exception):
 
 @contextlib.contextmanager
 def _time_limit(seconds):
-    """a changed interpreter may never come to rest (e.g. a loop whose group completes without any event): turn that into an observation"""
+    """a changed interpreter may never come to rest (e.g. a loop whose group completes without any event): turn that into an observation.
+    The limit is on the CPU time of this process (a busy machine that starves the process must not produce an observation);
+    a wall-clock limit of 30 x seconds is the backstop for an interpreter that blocks without computing."""
     import signal
 
     def _h(signum, frame):
-        raise _Stuck(f"run_to_completion did not return within {seconds} s")
+        raise _Stuck(f"run_to_completion did not return within {seconds} s of CPU time")
+
+    def _hw(signum, frame):
+        raise _Stuck(f"run_to_completion did not return within {30 * seconds} s")
 
     try:
-        old = signal.signal(signal.SIGALRM, _h)
+        old = signal.signal(signal.SIGVTALRM, _h)
+        oldw = signal.signal(signal.SIGALRM, _hw)
     except ValueError:  # not in the main thread: no guard
         yield
         return
-    signal.setitimer(signal.ITIMER_REAL, seconds)
+    signal.setitimer(signal.ITIMER_VIRTUAL, seconds)
+    signal.setitimer(signal.ITIMER_REAL, 30 * seconds)
     try:
         yield
     finally:
+        signal.setitimer(signal.ITIMER_VIRTUAL, 0)
         signal.setitimer(signal.ITIMER_REAL, 0)
-        signal.signal(signal.SIGALRM, old)
+        signal.signal(signal.SIGVTALRM, old)
+        signal.signal(signal.SIGALRM, oldw)
 
 
 def spec_to_json(x):
